@@ -47,6 +47,10 @@ void profile_mirror(RunCtx& ctx)
         kn.rate_before_invariant = true;
         family = "rate-before-invariant";
     }
+    if (rng.chance(0.1)) {
+        kn.split_instantiation = true;
+        ctx.count("models-with-instantiation-element");
+    }
     if (rng.chance(0.12)) {
         localize_ids(m, rng);
         ctx.count("models-with-template-local-ids");
